@@ -1700,7 +1700,14 @@ class InequalitySubsetState(SubsetState):
         else:
             right = data[self._right, view]
 
-        return self._operator(left, right)
+        result = self._operator(left, right)
+
+        # Comparing a single string (e.g. one element of a categorical
+        # component) gives a Python bool, but masks should be Numpy values
+        if isinstance(result, bool):
+            result = np.bool_(result)
+
+        return result
 
     def copy(self):
         return InequalitySubsetState(self._left, self._right, self._operator)
